@@ -238,3 +238,8 @@ class Bystander:
             u.toggle_sorting()
             u.get_n_dim_form()
         self.keep = u
+
+    def lazy_form(self):
+        """lazy N-D form of the bystander (same internal path, other file): evaluated TOGETHER with the form under test"""
+        import pyUSID as usid
+        return usid.USIDataset(self.main).get_n_dim_form(lazy=True)
